@@ -65,7 +65,7 @@ def build():
     u = Unit('fri', ['C07', 'C20'])
     u.rlimit = 100
     u.assume('builder arithmetic contracts as in unit gad (assumed); field laws; 64-bit usize')
-    u.assume('one_hot_from_bits (generic arity) returns the indicator vector of the little-endian index -- ASSUMED callee of reconstruct_evals (its 2-/3-bit kernels are proved here); CircuitBuilder::select as proved in unit gad')
+    u.assume('one_hot_from_bits (generic arity) returns the indicator vector of the little-endian index -- callee contract of reconstruct_evals, PROVED in unit onehot (its 2-/3-bit kernels are proved here); CircuitBuilder::select as proved in unit gad')
     u.assume('usize::BITS - n.leading_zeros() is the bit length of n (stub bit_length); EF::NEG_ONE * EF::ONE.halve() is the field constant -1/2 (uninterpreted neg_half)')
     u.text(open(os.path.join(HERE, 'gadget_prelude.rs')).read())
     u.text(SPEC)
